@@ -2100,6 +2100,58 @@ func c14ItemsShape(f *ast.File) (string, error) {
 	if fn == nil || fn.Body == nil {
 		return "", fmt.Errorf("func ConcatItems not found")
 	}
+	// the names of the locals do not matter: parameters become $p1.., locals $1.. in the order of their declaration
+	ren := map[string]string{}
+	if fn.Type.Params != nil {
+		for _, fl := range fn.Type.Params.List {
+			for _, n := range fl.Names {
+				ren[n.Name] = fmt.Sprintf("$p%d", len(ren)+1)
+			}
+		}
+	}
+	np := len(ren)
+	declare := func(id *ast.Ident) {
+		if _, ok := ren[id.Name]; !ok && id.Name != "_" {
+			ren[id.Name] = fmt.Sprintf("$%d", len(ren)-np+1)
+		}
+	}
+	ast.Inspect(fn.Body, func(n ast.Node) bool {
+		switch x := n.(type) {
+		case *ast.AssignStmt:
+			if x.Tok == token.DEFINE {
+				for _, l := range x.Lhs {
+					if id, ok := l.(*ast.Ident); ok {
+						declare(id)
+					}
+				}
+			}
+		case *ast.ValueSpec:
+			for _, id := range x.Names {
+				declare(id)
+			}
+		}
+		return true
+	})
+	notVar := map[*ast.Ident]bool{}
+	ast.Inspect(fn.Body, func(n ast.Node) bool {
+		switch x := n.(type) {
+		case *ast.SelectorExpr:
+			notVar[x.Sel] = true
+		case *ast.KeyValueExpr:
+			if id, ok := x.Key.(*ast.Ident); ok {
+				notVar[id] = true
+			}
+		}
+		return true
+	})
+	ast.Inspect(fn.Body, func(n ast.Node) bool {
+		if id, ok := n.(*ast.Ident); ok && !notVar[id] {
+			if r, ok := ren[id.Name]; ok {
+				id.Name = r
+			}
+		}
+		return true
+	})
 	var rows [][2]string
 	var summarise func(l []ast.Stmt) (string, error)
 	summarise = func(l []ast.Stmt) (string, error) {
@@ -2138,6 +2190,28 @@ func c14ItemsShape(f *ast.File) (string, error) {
 		return strings.Join(parts, "; "), nil
 	}
 	for _, s := range fn.Body.List {
+		if sw, ok := s.(*ast.SwitchStmt); ok {
+			// switch { case A: ..; case B: ..; default: .. } is the chain if A {..} else if B {..} else {..}
+			if sw.Init != nil || sw.Tag != nil {
+				return "", fmt.Errorf("ConcatItems: switch with an init statement or a tag")
+			}
+			for i, cc := range sw.Body.List {
+				cl := cc.(*ast.CaseClause)
+				b, err := summarise(cl.Body)
+				if err != nil {
+					return "", err
+				}
+				switch {
+				case len(cl.List) == 1:
+					rows = append(rows, [2]string{"if " + es(cl.List[0]), b})
+				case cl.List == nil && i == len(sw.Body.List)-1:
+					rows = append(rows, [2]string{"else", b})
+				default:
+					return "", fmt.Errorf("ConcatItems: switch clause outside the translated fragment")
+				}
+			}
+			continue
+		}
 		if is, ok := s.(*ast.IfStmt); ok {
 			for cur := is; cur != nil; {
 				if cur.Init != nil {
